@@ -884,6 +884,11 @@ def small_rewrites(t):
                 return ("attr", t[2][0], t[2][1][2])
             if n == "builtins.len" and len(t[2]) == 1 and not t[3] and is_const(strip(t[2][0])) and isinstance(strip(t[2][0])[2], (str, tuple)):
                 return const(len(strip(t[2][0])[2]))
+            if n == "builtins.int" and len(t[2]) == 1 and not t[3]:
+                # int(<rapidfuzz distance>) : the distances are integers already
+                a_ = strip(t[2][0])
+                if head(a_) == "call" and head(strip(a_[1])) == "glob" and strip(a_[1])[1].startswith("rapidfuzz.distance.") and strip(a_[1])[1].endswith(".distance"):
+                    return t[2][0]
             if n == "operator.itemgetter" and len(t[2]) == 1 and not t[3] and is_const(strip(t[2][0])):
                 # operator.itemgetter(k) == lambda x: x[k]
                 lamid = ("#itemgetter", repr(strip(t[2][0])[2]))
